@@ -2574,23 +2574,27 @@ impl IndexedChangeSet {
 		num_removed: &mut u64,
 		writer: &mut crate::log::LogWriter,
 	) -> Result<()> {
-		for address in children {
+		// Depth first, in the order a recursive walk visits the nodes, with an explicit stack: a
+		// tree can be arbitrarily deep and this runs on the log worker's stack.
+		let mut stack: Vec<std::vec::IntoIter<u64>> = vec![children.clone().into_iter()];
+		while let Some(level) = stack.last_mut() {
+			let address = match level.next() {
+				Some(address) => address,
+				None => {
+					stack.pop();
+					continue
+				},
+			};
 			// Can't move this after write_address_dec_ref_plan as write_address_dec_ref_plan might
 			// free the node meaning it could get reclaimed. Then get_node_children will return
 			// incorrect data.
-			let node = guard.get_node_children(*address)?;
-			let (remains, _outcome) = column.write_address_dec_ref_plan(*address, writer)?;
+			let node = guard.get_node_children(address)?;
+			let (remains, _outcome) = column.write_address_dec_ref_plan(address, writer)?;
 			if !remains {
 				// Was removed
 				*num_removed += 1;
 				if let Some(children) = node {
-					self.write_dereference_children_plan(
-						column,
-						guard,
-						&children,
-						num_removed,
-						writer,
-					)?;
+					stack.push(children.into_iter());
 				} else {
 					return Err(Error::InvalidConfiguration("Missing node data".to_string()))
 				}
